@@ -24,14 +24,16 @@ def declare(U):
     E = U.modules["env:mp"]
     W = M.cls("BaseFunctorWorker", fields={"wid": OptS(INT), "work_queue": RefS("Queue"), "results_queue": RefS("Queue"),
                                            "results_queue_lock": RefS("Lock"), "replace_queue": RefS("ReplaceQueue"), "exitcode": OptS(INT)},
-              ghost={"pstarted": BOOL, "pjoined": BOOL, "retired": BOOL, "owner": RefS("FunctorPool")})
+              ghost={"pstarted": BOOL, "pjoined": BOOL, "retired": BOOL, "owner": RefS("FunctorPool"), "running": BOOL})
+    m = W.method("is_alive", {}, BOOL, trusted=True)          # observation of the process state (pure)
+    m.ensures("result == self.running")
     m = W.method("start", {}, trusted=True)
     m.requires("not self.pstarted", "a-process-is-started-once")
     m.modifies("self.pstarted")
     m.ensures("self.pstarted")
     m = W.method("join", {"timeout": ANY}, trusted=True)
-    m.requires("self.retired or (self.owner != None and self.owner._work_queue != None and self.owner._work_queue.stops >= len(self.owner.procs))",
-               "owed@join:a-worker-is-joined-only-after-it-retired-or-after-one-stop-token-per-worker-was-put-on-the-work-queue")
+    m.requires("self.retired or not self.running or (self.owner != None and self.owner.served)",
+               "owed@join:a-worker-is-joined-only-after-it-retired,has-ended,or-one-stop-token-per-running-worker-was-sent")
     m.modifies("self.pjoined", "self.exitcode")
     m.ensures("self.pjoined")
     F = E.cls("FunctorWorkerFactory", fields={})
@@ -60,7 +62,7 @@ def declare(U):
 
 
 POOLX_FIELDS = {"procs": SeqS(RefS("BaseFunctorWorker")), "_wid_counter": INT, "join_timeout": ANY, "verbose": BOOL}
-POOLX_GHOST = {"widslot": ArrS(INT, INT), "slot": ArrS(RefS("BaseFunctorWorker"), INT)}
+POOLX_GHOST = {"widslot": ArrS(INT, INT), "slot": ArrS(RefS("BaseFunctorWorker"), INT), "served": BOOL}
 
 
 def base(U, more_fields=None):
